@@ -5,9 +5,8 @@
 
   `Good t d …` is the well-locatedness judgement for a located tree against the text `t`:
   every leaf's location is the location of exactly the token's bytes, every list node's
-  location lies inside the parentheses of its list.  The flag `d` admits the two defect
-  shapes the unchanged code exhibits (`hashPrim`, `hashLone`, and `*prims*` locations on
-  the list nodes above a `hashPrim`); `Good t false` is the property as stated.
+  location lies inside the parentheses of its list.  The flag `d` admits the one defect
+  shape the code exhibits (`hashLone`); `Good t false` is the property as stated.
 -/
 import ChialispModel.Text.Reader
 
@@ -30,10 +29,9 @@ def scanStep (q : UInt8) (st : Option (Bool × Bytes)) (c : UInt8) : Option (Boo
 def scanQ (q : UInt8) (raw : Bytes) : Option (Bool × Bytes) :=
   raw.foldl (scanStep q) (some (false, []))
 
-/-- `l` is the location of a non-empty byte range inside `[lo, hi)` — or, when defects are
-    admitted, the prim table's location. -/
-def LocIn (t : Bytes) (d : Bool) (l : Srcloc) (lo hi : Nat) : Prop :=
-  (∃ i j, lo ≤ i ∧ j ≤ hi ∧ Span t l i j) ∨ (d = true ∧ l = primLoc)
+/-- `l` is the location of a non-empty byte range inside `[lo, hi)`. -/
+def LocIn (t : Bytes) (l : Srcloc) (lo hi : Nat) : Prop :=
+  ∃ i j, lo ≤ i ∧ j ≤ hi ∧ Span t l i j
 
 /-- a list opens at offset `b`: `(`, or `#(` for a structured list. -/
 def opensAt (t : Bytes) (b : Nat) : Prop :=
@@ -68,25 +66,24 @@ inductive Good (t : Bytes) (d : Bool) : Bool → LRich → Nat → Nat → Prop
       Good t d true x b c → Good t d false x lo hi
   | inner {x : LRich} {b c : Nat} : Good t d false x (b+1) c → Good t d true x b c
   | gcons {l : Srcloc} {a e : LRich} {b c : Nat} :
-      LocIn t d l b (c+1) → Good t d true a b c → Good t d true e b c →
+      LocIn t l b (c+1) → Good t d true a b c → Good t d true e b c →
       Good t d true (.cons l a e) b c
-  | gnil {l : Srcloc} {b c : Nat} : LocIn t d l b (c+1) → Good t d true (.nil l) b c
-  /-- DEFECT (admitted only with `d = true`): `#name` with `name` in the prim table yields
-      the table's integer carrying the table's location. -/
-  | hashPrim {i j lo hi : Nat} {n : Int} :
-      d = true → lo < i → i < j → j ≤ hi → j ≤ t.length → t[i-1]? = some 35 →
+  | gnil {l : Srcloc} {b c : Nat} : LocIn t l b (c+1) → Good t d true (.nil l) b c
+  /-- `#name` with `name` in the prim table: the table's integer, located at `name`
+      (the byte before is `#`). -/
+  | hashPrim {l : Srcloc} {i j lo hi : Nat} {n : Int} :
+      lo < i → j ≤ hi → Span t l i j → t[i-1]? = some 35 →
       primLookup (seg t i j) = some n →
-      Good t d false (.int primLoc n) lo hi
+      Good t d false (.int l n) lo hi
   /-- DEFECT (admitted only with `d = true`): a lone `#` followed by white space yields the
       atom `#` located at the white-space character. -/
   | hashLone {l : Srcloc} {i lo hi : Nat} :
       d = true → lo < i → i < hi → Span t l i (i+1) → t[i-1]? = some 35 →
       Good t d false (.atom l [35]) lo hi
 
-/-- no node shows one of the two defect shapes: every location is in the input file and no
-    atom is the lone `#`. -/
+/-- no node shows the defect shape: no atom is the lone `#`. -/
 def Clean (x : LRich) : Prop :=
-  ∀ y ∈ x.nodes, y.loc.file = inputFile ∧ y.erase ≠ .atom [35]
+  ∀ y ∈ x.nodes, y.erase ≠ .atom [35]
 
 instance (x : LRich) : Decidable (Clean x) := by unfold Clean; infer_instance
 
@@ -99,6 +96,7 @@ def Within (t : Bytes) (l : Srcloc) (lo hi : Nat) : Prop :=
 def TokenOf (t : Bytes) (i : Nat) (w : Bytes) (y : LRich) : Prop :=
   (w.head? ≠ some 35 ∧ y = makePlain y.loc w) ∨
   (0 < i ∧ t[i-1]? = some 35 ∧ primLookup w = none ∧ y = .atom y.loc w) ∨
+  (0 < i ∧ t[i-1]? = some 35 ∧ ∃ n, primLookup w = some n ∧ y = .int y.loc n) ∨
   (∃ q raw body, (q = 34 ∨ q = 39) ∧ w = q :: (raw ++ [q]) ∧ scanQ q raw = some (false, body) ∧
      y = .qstr y.loc q body) ∨
   (w = [40, 41] ∧ y = .nil y.loc)
